@@ -675,7 +675,12 @@ void AsyncSim::op_reply(const run::Op &op) {
 
 void AsyncSim::op_dup(const run::Op &op) {
 	std::vector<std::pair<int, int>> cand;
-	for (size_t i = 0; i < eps.size(); i++) if (!eps[i].http) for (size_t j = 0; j < eps[i].answered.size(); j++) cand.push_back({(int)i, (int)j});
+	// (only replies to requests of the connection that is live now: a server does not replay into a new connection what it
+	// answered on a connection of an earlier service object, where the same ids meant other requests)
+	for (size_t i = 0; i < eps.size(); i++) if (!eps[i].http) {
+		Conn *lc = N.live_conn_of(eps[i].net_ep);
+		for (size_t j = 0; j < eps[i].answered.size(); j++) if (generation == 0 || (lc && eps[i].answered[j].conn == lc->idx)) cand.push_back({(int)i, (int)j});
+	}
 	if (cand.empty() || plan.c("adv", 0) == 0) return;
 	auto pick = cand[(size_t)op.arg(0) % cand.size()];
 	SimEndpoint &e = eps[pick.first];
@@ -1387,6 +1392,9 @@ void AsyncSim::quiesce() {
 		bool all_silent = true;
 		for (size_t ei = 0; ei < eps.size(); ei++) if (!eps[ei].silent && !(ha && ei < fresh.sub_full.size() && fresh.sub_full[ei])) all_silent = false;
 		for (auto &f : frames) if (f.bad) stream_corrupted = true; // the framing of a live stream may be lost for good
+		// an error PDU that a server had issued before the faults stopped and that reached the client only while the fresh request
+		// was outstanding fails it legitimately
+		if (!fresh.att.empty()) for (auto &f : frames) if (f.info.has_error && f.arrive_seq > fresh.att.back().accepted_seq) stream_corrupted = true;
 		// ... also when a frame that claims more bytes than the server ever sent is still open: everything that follows is swallowed into it
 		for (auto &e : eps) if (!e.http) for (auto &cp : N.conns) if (cp->ep == e.net_ep && !cp->client_closed) {
 			auto it = e.conn_parsed.find(cp->idx);
